@@ -230,3 +230,54 @@ pub type DEZY = <EZY<Vec<u32>, String> as DeserializeInner>::DeserType<'static>;
 pub type DRevParams = <RevParams<Vec<u8>, u16, String> as DeserializeInner>::DeserType<'static>;
 pub type SPairTA = <PairTA<&'static [u32], Vec<u8>> as SerializeInner>::SerType;
 pub type SRevParams = <RevParams<&'static [u8], u16, String> as SerializeInner>::SerType;
+
+
+// ---- enums with bounded field-typed parameters (compile since fix 5a76344)
+#[derive(Epserde, Debug, Clone, PartialEq)]
+pub enum EBnd<T: Clone + core::fmt::Debug> {
+    A,
+    B(T),
+    C { x: T, y: u8 },
+}
+pub type DEBndVec = <EBnd<Vec<u16>> as DeserializeInner>::DeserType<'static>;
+pub type SEBndVec = <EBnd<Vec<u16>> as SerializeInner>::SerType;
+pub type DEBndStr = <EBnd<String> as DeserializeInner>::DeserType<'static>;
+
+#[derive(Epserde, Debug, Clone, Copy, PartialEq)]
+#[repr(C)]
+#[zero_copy]
+pub enum ZEG<T: ZeroCopy> {
+    A,
+    B(T),
+    C { x: T, y: u16 },
+}
+pub type DZEGu32 = <ZEG<u32> as DeserializeInner>::DeserType<'static>;
+pub type SZEGu32 = <ZEG<u32> as SerializeInner>::SerType;
+pub type TZEGu32 = ZEG<u32>;
+pub const ZC_ZEG: bool = <ZEG<u32> as SerializeInner>::IS_ZERO_COPY;
+
+// ---- bounds written in a where clause (compile since fix 0191486)
+#[derive(Epserde, Debug, Clone, PartialEq)]
+pub struct SWhere<A, B>
+where
+    A: Clone + core::fmt::Debug,
+    B: DeepCopy + 'static,
+{
+    pub a: A,
+    pub b: Vec<B>,
+    pub c: u8,
+}
+pub type DSWhere = <SWhere<Vec<u32>, String> as DeserializeInner>::DeserType<'static>;
+pub type SSWhere = <SWhere<Vec<u32>, String> as SerializeInner>::SerType;
+#[derive(Epserde, Debug, Clone, Copy, PartialEq)]
+#[repr(C)]
+#[zero_copy]
+pub struct ZWhere<A>
+where
+    A: ZeroCopy,
+{
+    pub a: A,
+    pub b: u16,
+}
+pub type DZWhere = <ZWhere<u64> as DeserializeInner>::DeserType<'static>;
+pub type TZWhere = ZWhere<u64>;
